@@ -611,6 +611,35 @@ func (c *Ctx) checkNilFields(br *BR) {
 			}
 		})
 	}
+	// nilTest: cond says whether field fld is nil: a comparison of a load of the field with nil, or a call
+	// of a predicate of the package whose result is such a comparison (p.HasEditor()). eqNil: cond is true
+	// when the field IS nil.
+	nilTest := func(cond ssa.Value) (fld *types.Var, eqNil bool, ok bool) {
+		core, neg := stripNot(cond)
+		if bo, isBo := core.(*ssa.BinOp); isBo && (bo.Op == token.EQL || bo.Op == token.NEQ) && isNilConst(bo.Y) {
+			if f := isFieldLoad(bo.X); f != nil {
+				return f, (bo.Op == token.EQL) != neg, true
+			}
+			return nil, false, false
+		}
+		if call, isCall := core.(*ssa.Call); isCall {
+			g := call.Call.StaticCallee()
+			if g == nil || fnPkgPath(g) != zygoPath || len(g.Blocks) != 1 {
+				return nil, false, false
+			}
+			for _, r := range returnsOf(g) {
+				if len(r.Results) != 1 {
+					return nil, false, false
+				}
+				if bo, isBo := r.Results[0].(*ssa.BinOp); isBo && (bo.Op == token.EQL || bo.Op == token.NEQ) && isNilConst(bo.Y) {
+					if f := isFieldLoad(bo.X); f != nil {
+						return f, (bo.Op == token.EQL) != neg, true
+					}
+				}
+			}
+		}
+		return nil, false, false
+	}
 	n := 0
 	for _, f := range c.zygoFuncs() {
 		if !br.unprotected(f) {
@@ -642,27 +671,24 @@ func (c *Ctx) checkNilFields(br *BR) {
 				}
 			}
 			n++
-			guarded := guardedBy(b, func(cond ssa.Value) (bool, bool) {
-				bo, ok := cond.(*ssa.BinOp)
-				if !ok || (bo.Op != token.EQL && bo.Op != token.NEQ) || !isNilConst(bo.Y) {
-					return false, false
-				}
-				if isFieldLoad(bo.X) != fld {
-					return false, false
-				}
-				return true, bo.Op == token.NEQ
-			})
-			// or: the function returns early when the field is nil
-			if !guarded {
+			guarded := false
+			// the use is on the not-nil side of a test, or the function leaves early when the field is nil
+			{
 				for _, blk := range f.Blocks {
 					cond, t, e := condBranch(blk)
-					bo, ok := cond.(*ssa.BinOp)
-					if !ok || (bo.Op != token.EQL && bo.Op != token.NEQ) || !isNilConst(bo.Y) || isFieldLoad(bo.X) != fld {
+					if cond == nil {
 						continue
 					}
-					nilSide := t
-					if bo.Op == token.NEQ {
-						nilSide = e
+					tf, eqNil, isTest := nilTest(cond)
+					if !isTest || tf != fld {
+						continue
+					}
+					nilSide, okSide := t, e
+					if !eqNil {
+						nilSide, okSide = e, t
+					}
+					if okSide.Dominates(b) && len(okSide.Preds) == 1 {
+						guarded = true
 					}
 					if blk.Dominates(b) && !blockReaches(nilSide, b) && nilSide != b {
 						guarded = true
